@@ -18,6 +18,7 @@ import Proofs.OpHistory
 import Proofs.UndoStructure
 import Proofs.OpGuardSplit
 import Proofs.OpGuardWrap
+import Proofs.OpGuardLift
 import Proofs.OpGuardB
 import Props.C01
 namespace PM.C04
@@ -2008,10 +2009,21 @@ def nodeRangeOk (d : Node) (a b depth : Nat) : Prop :=
   ∃ rf rt, d.resolve a = some rf ∧ d.resolve b = some rt ∧ a ≤ b ∧ b ≤ rf.end_ depth ∧
     (depth < rf.depth ∨ rf.textOffset = 0) ∧ (depth < rt.depth ∨ rt.textOffset = 0)
 
+/-- both ends of `NodeRange(resolve a, resolve b, depth)` are child boundaries of the node at `depth` -/
+def nodeRangeEnds (d : Node) (a b depth : Nat) : Prop :=
+  ∃ rf rt, d.resolve a = some rf ∧ d.resolve b = some rt ∧ a ≤ b ∧
+    (depth < rf.depth ∨ rf.textOffset = 0) ∧ (depth < rt.depth ∨ rt.textOffset = 0)
+
+theorem nodeRangeOk.ends {d : Node} {a b depth : Nat} (h : nodeRangeOk d a b depth) : nodeRangeEnds d a b depth := by
+  obtain ⟨rf, rt, hf, ht, hab, _, hfb, htb⟩ := h
+  exact ⟨rf, rt, hf, ht, hab, hfb, htb⟩
+
 /-- **what is asked of an operation of a run** (`tr` before, `tr1` after).
     * `add_mark` / `remove_mark`: no inline node with content in the document (`flatInline`; no bundled schema
       has one), the same-type guard (finding C04-same-type-mark-order) and pair-alignment per recorded step;
     * `join`, `split`: pair-alignment;
+    * `lift`: both ends of the range at child boundaries of the node at its depth (`nodeRangeEnds`),
+      pair-alignment;
     * `wrap`: a node range as `block_range` builds it (`nodeRangeOk`), no wrapper of a leaf type (with one
       `Transform.wrap` goes through and its undo fails: an instance of finding C04-structure-inverse),
       pair-alignment;
@@ -2020,6 +2032,8 @@ def nodeRangeOk (d : Node) (a b depth : Nat) : Prop :=
     * every other operation: `FamilyGuard` of the steps it recorded. -/
 def OpResidual (S : Schema) (op : Op) (tr tr1 : Tr) : Prop :=
   match op with
+  | .lift a b depth _ => nodeRangeEnds tr.doc a b depth ∧
+      HistAll (fun s _ d' => s.undoAligned d') (appended tr tr1) tr1.doc
   | .wrap a b depth ws => nodeRangeOk tr.doc a b depth ∧ (∀ w ∈ ws, (S.nodeType w.1).isLeaf = false) ∧
       HistAll (fun s _ d' => s.undoAligned d') (appended tr tr1) tr1.doc
   | .setNodeMarkup pos ty _ marks =>
@@ -2077,23 +2091,25 @@ theorem splitGuard_family (S : Schema) (d d' : Node) (pos depth : Nat) (st : Ste
   obtain ⟨sl, rfl, hsn, hp⟩ := split_guard_parts S d pos depth st hv hdoc hb
   exact ⟨hsn, hp, hal⟩
 
-/-- the step `lift` emits satisfies its `FamilyGuard` on a valid normal-form document: slice in normal form
-    and well formed, ordered gap, valid payload, and the structure checks of the inverse (`hst`: the slice
-    carries only the close tokens of the ancestors split before the range and the open tokens of those
-    split after it).  Hypotheses left: `gapClean` (the range is a run of whole children: decidable, measured
-    true on every recorded lift step by the tie) and pair-alignment. -/
+/-- the step `lift` emits satisfies its `FamilyGuard` on a valid normal-form document when both ends of the
+    range are child boundaries of the node at the range's depth (`nodeRangeEnds`, as for every range
+    `block_range` builds): slice in normal form and well formed, ordered gap, valid payload, the structure
+    checks of the inverse (`hst`: the slice carries only the close tokens of the ancestors split before the
+    range and the open tokens of those split after it), and `gapClean` (between the step's start and the gap
+    the document has only open tokens, between the gap and the step's end only close tokens, so in the old
+    slice the gap is a run of whole children with nothing before it at its level).  Pair-alignment left. -/
 theorem liftGuard_family (S : Schema) (d d' : Node) (a b depth target : Nat) (st : Step)
-    (hv : S.checkNode d = true) (hn : fnorm d.kids = true) (hab : a ≤ b)
+    (hv : S.checkNode d = true) (hn : fnorm d.kids = true) (hr : nodeRangeEnds d a b depth)
     (hb : liftStep d a b depth target = .ok st) (h : S.apply st d = .ok d')
-    (hclean : ∀ f t gf gt sl ins bb, st = .replaceAround f t gf gt sl ins bb → ∀ old, d.slice f t = .ok old →
-      gapClean old.content none (gf - f + old.openStart) (gt - f + old.openStart) = true)
     (hal : st.undoAligned d') : FamilyGuard S st d d' := by
+  obtain ⟨rf, rt, hf, ht, hab, hfb, htb⟩ := hr
   obtain ⟨f, t, gf, gt, sl, ins, rfl, hsn, hwf, hins, hgo, hshape⟩ :=
     lift_guard_parts S d d' a b depth target st hv hn hab hb h
   have hp := lift_payload_valid S d d' a b depth target _ hv hab hb h f t gf gt sl ins true rfl
+  have hclean := lift_gapClean S d d' a b depth target _ rf rt hn hab hf ht hfb htb hb h f t gf gt sl ins true rfl
   exact ⟨hsn, hwf, hins, hgo, hp,
     fun _ => replaceAround_hst_of_wrappers S d d' f t gf gt sl ins true hn hsn hwf hins hgo h hshape,
-    hclean f t gf gt sl ins true rfl, hal⟩
+    hclean, hal⟩
 
 /-- the step `wrap` emits satisfies its `FamilyGuard` on a valid normal-form document: node range as
     `block_range` builds it, no wrapper of a leaf type; pair-alignment left.  (Payload: the wrappers with
@@ -2225,7 +2241,12 @@ theorem op_family (S : Schema) (op : Op) (tr tr1 : Tr) (hlen : tr.steps.length =
     simp only [OpResidual] at hres
     rw [appended_eq e] at hres ⊢
     exact ⟨splitGuard_family S _ _ pos depth st hI.1 hb ha hres.1, trivial⟩
-  | lift a b depth target => exact hres
+  | lift a b depth target =>
+    obtain ⟨st, hb, hs⟩ := Tr.built_some h
+    obtain ⟨e, ha⟩ := Tr.step_hist hlen hs
+    obtain ⟨hr, hal⟩ := hres
+    rw [appended_eq e] at hal ⊢
+    exact ⟨liftGuard_family S _ _ a b depth target st hI.1 hI.2 hr hb ha hal.1, trivial⟩
   | wrap a b depth ws =>
     obtain ⟨st, hb, hs⟩ := Tr.built_some h
     obtain ⟨e, ha⟩ := Tr.step_hist hlen hs
